@@ -35,22 +35,94 @@ _units_spec = []
 for k in sorted(_U):
     if k < 100:
         _units_spec.append({"name": "u%d" % k, "src": ["c06_main.cpp"], "variant": "asan", "defs": ["C06_UNIT=%d" % k],
-                            "configs": dict([(n, {"quick": 400, "thorough": 6000}) for n in _U[k]] +
-                                            [(n + "+gap", _gap(n, {"quick": 150, "thorough": 2000})) for n in _U[k]
+                            "configs": dict([(n, {"quick": 400, "thorough": 4000}) for n in _U[k]] +
+                                            [(n + "+gap", _gap(n, {"quick": 150, "thorough": 1200})) for n in _U[k]
                                              if _gap(n, 1)]), "chunk": 50})
     else:
         _units_spec.append({"name": "t%d" % k, "src": ["c06_main.cpp"], "variant": "asan", "defs": ["C06_UNIT=%d" % k],
                             "tiers": ["thorough"],
-                            "configs": dict([(n, {"thorough": 3000}) for n in _U[k]] +
-                                            [(n + "+gap", _gap(n, {"thorough": 1000})) for n in _U[k] if _gap(n, 1)]),
+                            "configs": dict([(n, {"thorough": 2000}) for n in _U[k]] +
+                                            [(n + "+gap", _gap(n, {"thorough": 600})) for n in _U[k] if _gap(n, 1)]),
                             "chunk": 200})
+
+_QUICK_FLOORS = {
+    "_distinct_nontrivial": 4000,
+    "op.swap": 70000, "op.swap_z1": 15000, "op.insert": 15000, "op.insert.idorder_unsorted": 6000,
+    "op.remove_last": 10000, "op.remove_last.right_after_swap": 5000, "op.remove_last.last_not_max_id": 3000,
+    "op.remove_maximal.not_last": 10000, "op.fork": 8000,
+    "cmp.barcode": 150000, "cmp.derived_barcode": 200000, "cmp.ru.factorisation": 60000, "cmp.chain.column": 1500000,
+    "cmp.swap_return": 100000, "cmp_calls.birth": 4000, "cmp_calls.death": 700,
+    # state classes of the transpositions (sign of the two cells, same dimension, pairing, U / chain entry present,
+    # outcome according to the oracle), per flavour
+    "swapcls.ru.nn,samedim,u1,exch": 500, "swapcls.ru.nn,samedim,u1,kept": 150, "swapcls.ru.np,samedim,u1,exch": 2500,
+    "swapcls.ru.pn,samedim,u1,kept": 40, "swapcls.ru.pp,samedim,both_paired,u0,exch": 700,
+    "swapcls.ru.pp,samedim,both_paired,u0,kept": 2000, "swapcls.ru.pp,samedim,one_paired,u0,exch": 4000,
+    "swapcls.ru.pp,samedim,one_paired,u0,kept": 1000, "swapcls.ru.pp,samedim,unpaired,u0,any": 4000,
+    "swapcls.ru.z1.nn,samedim,u1,exch": 1000, "swapcls.ru.z1.np,samedim,u1,exch": 3000,
+    "swapcls.chain.nn,samedim,e1,exch": 1200, "swapcls.chain.nn,samedim,e1,kept": 500, "swapcls.chain.np,samedim,e1,exch": 5000,
+    "swapcls.chain.pn,samedim,e1,kept": 80, "swapcls.chain.pp,samedim,both_paired,e1,exch": 2000,
+    "swapcls.chain.pp,samedim,both_paired,e1,kept": 600, "swapcls.chain.pp,samedim,one_paired,e1,exch": 7000,
+    "swapcls.chain.pp,samedim,unpaired,e1,any": 1000, "swapcls.chain.z1.nn,samedim,e1,exch": 400,
+    "swapcls.chain.z1.pp,samedim,both_paired,e1,exch": 600,
+}
 
 SPEC = {
     "property": "C06",
-    "rule": "TODO",
-    "assumptions": [],
+    "rule": "per case: a random filtered cell complex (simplices on <= 7 vertices; in 1/3 of the cases also parallel cells and square "
+            "2-cells; 2-36 cells, dim <= 3) in a random admissible order; a Matrix<Options> with vine updates is built on it (batch / "
+            "default / reserving constructor; ids implicit, counted, or - configs '+gap' - explicit with gaps) and driven through a "
+            "random walk of 10-60 (thorough 10-80) steps: 60% adjacent transpositions of cells that are not face/coface (vine_swap; "
+            "vine_swap_with_z_eq_1_case only where the stored U / chain entry it presupposes is present; same-dimension pairs "
+            "preferred, sometimes pushing one cell upwards for several steps), 12% insertion of a cell at the end, 10% remove_last, "
+            "12% remove_maximal_cell of a random maximal cell (one-argument and (id, columnsToSwap) overloads), 6% fork = a fresh "
+            "matrix is built on the current order and both matrices are driven by the same suffix. After EVERY step, for every live "
+            "matrix: get_number_of_columns; get_current_barcode (when stored) as a multiset of (dim, birth, death) in positions == "
+            "textbook reduction (oracle/zp_reduce.h, Z_2) of the current order; the defining identities (RU: R reduced, get_pivot / "
+            "get_column_with_pivot inverse of each other, column dimensions, barcode read off the pivots of R == oracle, stored factor "
+            "unit triangular with one of B=R.M, R=B.M, B=R.M^T, R=B.M^T exactly; chain: one column per cell with that cell as pivot and "
+            "latest element, homogeneous dimension, boundary of each chain zero or exactly an earlier stored chain, no chain killed "
+            "twice, is_paired / get_paired_chain_index consistent, barcode read off that pairing == oracle); and the returned value of "
+            "the swap: 'kept' (new barcode = old one with the two positions exchanged) vs 'exchanged' (barcode in positions unchanged) "
+            "is decided by the oracle alone and compared with the bool (position interfaces), with first/second argument (RU, "
+            "identifier indexing), with the returned column and its pivot (chain, container indexing) or with the id of the cell that "
+            "moved up (chain, identifier indexing); when both hold (two essential bars of one dimension) any value is accepted. "
+            "Chain matrices without stored barcode get birth/death comparators answering from the model order and the oracle barcode. "
+            "non-trivial = distinct history with >= 4 transpositions, >= 2 of them between cells of equal dimension, >= 1 whose oracle "
+            "outcome is 'exchanged', and >= 1 insertion or removal",
+    "assumptions": [
+        "Z_2 only (the library static_asserts it for vine updates); transpositions are always called as (earlier cell, later cell)",
+        "RU matrices: rows stay attached to positions (documented: 'the rows also swap IDs'), so the boundary of a cell inserted after "
+        "swaps is expressed with the row index of the current position of each face; the row labels of the stored factor U are "
+        "accepted in either convention (position or row index) and entries of U in rows of removed cells are ignored",
+        "RU by position in the natural configs always uses insert_boundary without id (row index == position); RU with identifier "
+        "indexing inserts a cell only when the identifier equal to its position is free (otherwise skipped): identifiers different "
+        "from positions are the domain of the '+gap' configs, of which only two RU ones are kept as witnesses of a known defect",
+        "chain matrix without stored barcode: no insertion while the identifiers of the live cells are not increasing along the "
+        "filtration (documented restriction of insert_boundary; such a matrix has no position map), and remove_last() is called only "
+        "once in 12 opportunities when the last cell does not carry the largest identifier (known defect, it ends the case); its "
+        "comparators decode their arguments (internal column indices, although documented as positions) with get_pivot, which "
+        "restricts this flavour to container indexing",
+        "vine_swap_with_z_eq_1_case is never called for RU with identifier indexing (the U entry it presupposes cannot be read there)",
+        "a transposition of two cells carrying two essential bars of the same dimension does not determine the returned value",
+        "trusted: oracle/zp_reduce.h and the cell-complex model in c06_world.h",
+    ],
     "units": _units_spec,
-    "floors": {"quick": {}, "thorough": {}},
+    "floors": {"quick": _QUICK_FLOORS,
+               "thorough": dict((k, v * 8) for k, v in _QUICK_FLOORS.items())},
     "exhaustive": {"quick": False, "thorough": False},
-    "manifest": {"text": "TODO", "note": "TODO", "technique": "runtime monitoring"},
+    "manifest": {
+        "text": "Runtime monitor: for RU and chain persistence matrices with vine updates (container / position / identifier indexing, with "
+                "and without stored barcode, all 9 column types, removable columns on and off, row access variants: 20 instantiations in "
+                "the quick tier, 52 in the thorough tier) thousands of random histories of adjacent transpositions, z=1 transpositions, "
+                "insertions, remove_last, remove_maximal_cell (both overloads) and forks onto freshly rebuilt matrices are executed under "
+                "ASan+UBSan; after every single step the stored barcode, the barcode read off the columns, the RU factorisation / chain "
+                "compatibility identities and the truthfulness of the value returned by the swap are compared with an independent textbook "
+                "Z_2 reduction of the current filtration order. Held on what was observed (every reachable class of the vineyard case "
+                "analysis is counted and has a coverage floor), not a proof.",
+        "note": "trusted: oracle/zp_reduce.h, the cell-complex model of the harness; identifiers different from positions are exercised "
+                "for chain matrices only (for RU matrices two small witness configs); chain matrices without stored barcode only with "
+                "container indexing and with the id-order restrictions listed in the assumptions",
+        "technique": "runtime monitoring: randomized operation histories + independent reduction oracle and defining-identity checks after "
+                     "every step, under AddressSanitizer/UBSan/_GLIBCXX_ASSERTIONS",
+    },
 }
